@@ -150,6 +150,23 @@ def main(repo='/repo', dest=None):
     r_ring = range_tests(method(q, 'ExtendedQuery', 'ring_sizes', p_q, True), p_q + ':ring_sizes')
     r_chg = range_tests(method(q, 'ExtendedQuery', 'charge', p_q, True), p_q + ':charge')
 
+    def guards(fn):
+        """the tests of the top-level if / elif chain of a function, as normalised source text"""
+        chain = [n for n in fn.body if isinstance(n, ast.If)]
+        if len(chain) != 1:
+            raise TranslatorError(f'{p_q}:{fn.lineno}: expected one if-chain in {fn.name}')
+        out, node = [], chain[0]
+        while True:
+            out.append(ast.unparse(node.test))
+            if len(node.orelse) == 1 and isinstance(node.orelse[0], ast.If):
+                node = node.orelse[0]
+            else:
+                break
+        return out
+    g_validate = guards(function(q, '_validate', p_q))
+    g_hyb = guards(method(q, 'Query', 'hybridization', p_q, True))
+    g_ring = guards(method(q, 'ExtendedQuery', 'ring_sizes', p_q, True))
+
     bd, p_bd = parse(repo, 'chython/containers/bonds.py')
     init = method(bd, 'QueryBond', '__init__', p_bd)
     tuples = set()
@@ -191,6 +208,10 @@ def main(repo='/repo', dest=None):
         f'Definition hybridization_tests : list (string * Z) := {tests(r_hyb)}.',
         f'Definition ring_sizes_tests : list (string * Z) := {tests(r_ring)}.',
         f'Definition charge_tests : list (string * Z) := {tests(r_chg)}.',
+        '(* the type dispatch (if / elif tests) of _validate and of the hybridization / ring_sizes setters *)',
+        f'Definition validate_guards : list string := {lst(g_validate, cs)}.',
+        f'Definition hybridization_guards : list string := {lst(g_hyb, cs)}.',
+        f'Definition ring_sizes_guards : list string := {lst(g_ring, cs)}.',
         '(* QueryBond: allowed orders *)',
         f'Definition qbond_orders : list Z := {lst(orders, zraw)}.',
         ''])
